@@ -52,7 +52,7 @@ def run(ctx):
     ctx.explanation = (
         'Hybrid. PROVED for all inputs (pyvc, contracts/decoders.py): (1) the per-frame recurrences of the prefix search — compute_Pb, '
         'compute_Pnb (extension from blank always, from non-blank only when the character differs from the last one; "keep" column), '
-        'compute_Plm, get_reduced_Pc, get_reduced_last_chars, get_continuation_mask; (2) the bookkeeping — get_new/old_prefixes_positions, '
+        'get_reduced_Pc, get_reduced_last_chars, get_continuation_mask; (2) the bookkeeping — get_new/old_prefixes_positions, '
         'find_new_prefixes, find_matching, adjust_for_prefix_joining (the mass of "parent + last character" is moved to the existing child '
         'and removed from the parent row, exactly those cells and no others); (3) the beam loop of CTCPrefixLogRawNumpyDecoder.__call__ '
         '(configuration without a language model): inductive invariant "the beam holds pairwise distinct prefixes of real characters, each with '
